@@ -288,6 +288,7 @@ func (p *Program) fieldFuncSpec(n *types.Named, field string) *FuncSpec {
 }
 
 func (p *Program) ifaceSpec(recv types.Type, m *types.Func) *FuncSpec {
+	recv = types.Unalias(recv)
 	try := func(n *types.Named) *FuncSpec {
 		if n.Obj().Pkg() == nil {
 			// error.Error etc.
